@@ -23,11 +23,13 @@ REQUIRED = {
     "quick": {"acceptances": 50000, "class/off_grid_buy": 5000, "class/off_grid_sell": 5000, "class/on_grid": 5000,
               "class/near_grid_ulp": 3000, "class/power_of_two_tick_exact": 5000, "class/runner_offgrid": 50,
               "class/non_builtin_bool_side_flag": 2000,
-              "class/offered_to_another_venue_first_and_refused_there": 4000},
+              "class/offered_to_another_venue_first_and_refused_there": 4000,
+              "class/pegged_to_the_published_market_price": 800},
     "thorough": {"acceptances": 1000000, "class/off_grid_buy": 100000, "class/off_grid_sell": 100000,
                  "class/on_grid": 100000, "class/near_grid_ulp": 50000, "class/power_of_two_tick_exact": 100000,
                  "class/runner_offgrid": 1000, "class/non_builtin_bool_side_flag": 40000,
-                 "class/offered_to_another_venue_first_and_refused_there": 80000},
+                 "class/offered_to_another_venue_first_and_refused_there": 80000,
+                 "class/pegged_to_the_published_market_price": 16000},
 }
 BATCH = 250
 
@@ -52,6 +54,15 @@ def gen_case(rng, tier, idx):
                 for w, tpl in v["program"]["actions"]:
                     if tpl["a"] == "limit":
                         tpl["offgrid"] = 1.0
+                # orders pegged exactly to the published market price (a mid price, off the grid when the spread
+                # is an odd number of ticks and nothing has traded yet)
+                v["program"]["actions"].append([4, {"a": "limit", "side": "any", "off": [0, 0], "vol": [1, 2],
+                                                    "ttl": [2, 5], "offgrid": 0.0}])
+        if rng.random() < 0.6:
+            # a placement-only opening session builds the book; nothing trades, so the market price is the mid price
+            ss = c["config"]["simulation"]["sessions"]
+            ss[0]["withOrderExecution"] = False
+            ss[0]["withOrderPlacement"] = True
         return c
     tick = rng.choice(TICKS)
     prices = []
@@ -75,6 +86,12 @@ def gen_case(rng, tier, idx):
             p = rng.uniform(0.01, 1000.0)
         prices.append([p, rng.random() < 0.5])
     case = {"drive": "direct", "tick": tick, "prices": prices}
+    if rng.random() < 0.4:
+        # the market's own published price is off the grid (an off-grid configured price, or a mid price of an odd
+        # spread before the first trade) and orders are pegged exactly to it
+        case["p0_frac"] = rng.choice([0.5, 0.25, 0.75, rng.random()])
+        for _ in range(12):
+            prices[rng.randrange(len(prices))] = ["PEG", rng.random() < 0.5]
     if rng.random() < 0.15:
         case["retick"] = rng.choice([t for t in TICKS if t != tick])
         half = len(prices) // 2
@@ -84,7 +101,7 @@ def gen_case(rng, tier, idx):
 
 def sample_of(case):
     if case.get("drive") == "direct":
-        return {"tick": case["tick"], "prices": case["prices"][:12]}
+        return {"tick": case["tick"], "p0_frac": case.get("p0_frac"), "prices": case["prices"][:12]}
     return {"drive": "runner", "seed": case["seed"]}
 
 
@@ -170,12 +187,14 @@ def run_case(case, res):
 
     tick = case["tick"]
     m = Market(market_id=0, prng=random.Random(0), simulator=SimStub(), name="m")
-    m.setup({"tickSize": tick, "marketPrice": 100 * tick})
+    p0 = (100 + case.get("p0_frac", 0.0)) * tick
+    m.setup({"tickSize": tick, "marketPrice": p0})
     m._update_time(next_fundamental_price=100 * tick)
     m._is_running = False
     # a second venue with another grid: a router that tries venues in turn offers some orders to it first
     others = [t for t in TICKS if t != tick]
-    other_tick = others[int(case["prices"][0][0] * 1000) % len(others)]
+    first = next(p_ for p_, _ in case["prices"] if p_ != "PEG")
+    other_tick = others[int(first * 1000) % len(others)]
     m2 = Market(market_id=1, prng=random.Random(1), simulator=SimStub(), name="m2")
     m2.setup({"tickSize": other_tick, "marketPrice": 100 * other_tick})
     m2._update_time(next_fundamental_price=100 * other_tick)
@@ -186,6 +205,9 @@ def run_case(case, res):
     retick = case.get("retick")
 
     for j, (p, is_buy) in enumerate(case["prices"]):
+        if p == "PEG":
+            p = m.get_market_price()
+            res.count("class/pegged_to_the_published_market_price")
         flag = is_buy
         if j % 9 == 4:
             # a side flag that is truthy/falsy without being the bool singleton (e.g. from a numpy comparison)
